@@ -20,11 +20,18 @@ use crate::{
 
 use crate::compile;
 
+/// Deepest nesting of expressions (parentheses, lists, maps, arguments, index
+/// expressions, conditional branches, format string segments) and longest run of
+/// unary operators the parser accepts. The parser is recursive, this keeps its stack
+/// use bounded.
+const MAX_NESTING_DEPTH: usize = 32;
+
 pub struct CelCompiler<'l> {
     tokenizer: &'l mut dyn Tokenizer,
     bindings: BindContext<'l>,
 
     next_label: u32,
+    depth: usize,
 }
 
 impl<'l> CelCompiler<'l> {
@@ -33,7 +40,26 @@ impl<'l> CelCompiler<'l> {
             tokenizer,
             bindings: BindContext::for_compile(),
             next_label: 0,
+            depth: 0,
         }
+    }
+
+    fn enter_nested(&mut self) -> CelResult<()> {
+        if self.depth >= MAX_NESTING_DEPTH {
+            return Err(SyntaxError::from_location(self.tokenizer.location())
+                .with_message(format!(
+                    "Expression nested deeper than {} levels",
+                    MAX_NESTING_DEPTH
+                ))
+                .into());
+        }
+
+        self.depth += 1;
+        Ok(())
+    }
+
+    fn leave_nested(&mut self) {
+        self.depth -= 1;
     }
 
     pub fn compile(mut self) -> CelResult<Program> {
@@ -58,6 +84,13 @@ impl<'l> CelCompiler<'l> {
     }
 
     fn parse_expression(&mut self) -> CelResult<(CompiledProg, AstNode<Expr>)> {
+        self.enter_nested()?;
+        let res = self.parse_expression_unguarded();
+        self.leave_nested();
+        res
+    }
+
+    fn parse_expression_unguarded(&mut self) -> CelResult<(CompiledProg, AstNode<Expr>)> {
         if let Some(Token::Match) = self.tokenizer.peek()?.as_token() {
             self.tokenizer.next()?;
             self.parse_match_expression()
@@ -829,7 +862,10 @@ impl<'l> CelCompiler<'l> {
             }) => {
                 self.tokenizer.next()?;
 
-                let (not_list, ast) = self.parse_not_list()?;
+                self.enter_nested()?;
+                let tail = self.parse_not_list();
+                self.leave_nested();
+                let (not_list, ast) = tail?;
                 let node = compile!([ByteCode::Not.into()], not_list, not_list);
 
                 let range = ast.range().surrounding(loc);
@@ -862,7 +898,10 @@ impl<'l> CelCompiler<'l> {
             }) => {
                 self.tokenizer.next()?;
 
-                let (neg_list, ast) = self.parse_neg_list()?;
+                self.enter_nested()?;
+                let tail = self.parse_neg_list();
+                self.leave_nested();
+                let (neg_list, ast) = tail?;
                 let node = compile!([ByteCode::Neg.into()], neg_list, neg_list);
 
                 let range = ast.range().surrounding(loc);
@@ -1282,6 +1321,7 @@ impl<'l> CelCompiler<'l> {
                         FStringSegment::Expr(e) => {
                             let mut tok = StringTokenizer::with_input(&e);
                             let mut comp = CelCompiler::with_tokenizer(&mut tok);
+                            comp.depth = self.depth;
 
                             let (e, _) = comp.parse_expression()?;
 
